@@ -1,0 +1,7 @@
+//go:build !verif
+// +build !verif
+
+package utils
+
+// verifAlloc is a no-op outside verif builds (see verif_hooks.go).
+func verifAlloc(n int) {}
